@@ -50,7 +50,12 @@ def run(ch, params, decoded=False):
     class MyTemplate(Template):
         pass
 
-    comp_classes = [type(f"TC{i}", (Component,), {"template": source(i), "__module__": "sim.generated",
+    used = []   # the compiled Template a component render worked with (public hook argument)
+
+    def orb(self, context, template):
+        used.append(template)
+
+    comp_classes = [type(f"TC{i}", (Component,), {"template": source(i), "__module__": "sim.generated", "on_render_before": orb,
                                                    "get_context_data": (lambda self, **kw: {"v": kw.get("v"), "l": ["a", "b"]})})
                     for i in range(n_src)]
     engine = engines["django"].engine
@@ -90,21 +95,27 @@ def run(ch, params, decoded=False):
                 elif op[0] == "render_component":
                     si = op[1]
                     key = (0, si, 0)
-                    if ref.get(key) is None:
+                    # a component render is one use of its template's cache entry (a get(), or a set() after a miss): the
+                    # entry becomes the most recently used one; the Template object it worked with is observed through
+                    # the on_render_before hook - NOT through another cached_template() call, which would itself refresh
+                    # the entry and hide a render that does not
+                    resident = ref.get(key) is not None
+                    if not resident:
                         ref.set(key, 1)
-                        last.pop(key, None)
+                    del used[:]
                     out = comp_classes[si].render(kwargs={"v": si})
                     fresh = Template(source(si)).render(Context({"v": si, "l": ["a", "b"]}))
                     if str(out) != fresh:
                         problem = ("OUTPUT", f"component render {str(out)!r} != fresh compile {fresh!r}")
+                    elif len(used) != 1:
+                        problem = ("HOOK", f"on_render_before ran {len(used)} times in one render")
+                    elif resident and last.get(key) is not used[0]:
+                        problem = ("IDENTITY", f"key {key} is resident per the reference LRU but the component rendered with a different Template object")
+                    elif not resident and any(t is used[0] for t in last.values()):
+                        problem = ("IDENTITY", f"key {key} is not resident per the reference LRU but the component rendered with an old Template object")
                     outs.append(str(out))
-                    # the Template object the component used is now the cached one for that key: fetch it through the
-                    # public function (a get() in the reference model too; with size 0 nothing is resident)
-                    resident = ref.get(key) is not None
-                    tpl2 = cached_template(source(si))
-                    if not resident:
-                        ref.set(key, 1)
-                    last[key] = tpl2
+                    if used:
+                        last[key] = used[0]
                 elif op[0] == "bad_compile":
                     ref.get((0, "bad", 0))
                     try:
